@@ -28,7 +28,36 @@ func init() {
 		models["github.com/pkg/errors."+n] = modelNewError
 	}
 	models["fmt.Sprintf"] = func(f *Frame, st *State, e *ast.CallExpr, recv *Term, args []*Term, sig *types.Signature) []*Term {
-		return []*Term{f.c.fresh("sprintf", SStr)}
+		// a deterministic function of (format, arguments) when every argument is a plain value (string, number,
+		// bool); otherwise (pointers, interfaces with String methods) a fresh string
+		c := f.c
+		plain := !e.Ellipsis.IsValid()
+		var vals []*Term
+		vals = append(vals, args[0])
+		for i := 1; i < len(e.Args) && plain; i++ {
+			b, ok := types.Unalias(f.typeOf(e.Args[i])).Underlying().(*types.Basic)
+			if !ok || b.Info()&(types.IsString|types.IsInteger|types.IsBoolean) == 0 {
+				plain = false
+				break
+			}
+			v, _, ok2 := f.varArg(st, e, args[1], 1, i-1)
+			if !ok2 {
+				plain = false
+				break
+			}
+			vals = append(vals, v)
+		}
+		if !plain {
+			return []*Term{c.fresh("sprintf", SStr)}
+		}
+		sorts := make([]Sort, len(vals))
+		name := "sprintf"
+		for i, v := range vals {
+			sorts[i] = v.Sort
+			name += "!" + strings.Trim(string(v.Sort), "|")
+		}
+		fn := c.declareFun(name, sorts, SStr)
+		return []*Term{App(fn, SStr, vals...)}
 	}
 	models["strings.HasPrefix"] = func(f *Frame, st *State, e *ast.CallExpr, recv *Term, args []*Term, sig *types.Signature) []*Term {
 		return []*Term{f.c.prefixOf(args[1], args[0])}
